@@ -166,9 +166,9 @@ func (x *Exec) runPoints(when, anchor string, st *State, pos token.Pos) {
 		}
 		cenv := x.contractEnv(pos)
 		if p.Assert != nil {
-			x.inContract++
+			x.c.inContract++
 			t := x.defaultType(x.eval(p.Assert.Expr, st, cenv)).T
-			x.inContract--
+			x.c.inContract--
 			label := p.Assert.Label
 			if label == "" {
 				label = fmt.Sprintf("%s.%s", when, anchor)
@@ -182,8 +182,8 @@ func (x *Exec) runPoints(when, anchor string, st *State, pos token.Pos) {
 }
 
 func (x *Exec) execGhost(stmts []ast.Stmt, st *State, cenv *Env) {
-	x.inContract++
-	defer func() { x.inContract-- }()
+	x.c.inContract++
+	defer func() { x.c.inContract-- }()
 	fl := x.execBlock(stmts, st, cenv)
 	if fl.normal == nil {
 		panic(unsupported("ghost code must fall through"))
@@ -593,10 +593,13 @@ func (x *Exec) assignedIn(body ast.Node, info *types.Info) (vars map[types.Objec
 				}
 				return true
 			}
-			// any other call may allocate and (per its contract) modify heaps and ghost state
-			allocs = true
-			ghosts = true
-			heapSorts["*"] = true
+			// other calls: effects by callee
+			a, gh, hs := x.callEffects(n, info)
+			allocs = allocs || a
+			ghosts = ghosts || gh
+			for _, s := range hs {
+				heapSorts[s] = true
+			}
 		case *ast.CompositeLit:
 			if t := info.TypeOf(n); t != nil {
 				if sl, ok := t.Underlying().(*types.Slice); ok {
@@ -802,9 +805,9 @@ func (x *Exec) loopWritable(body ast.Node, st *State, env *Env, elemSort string)
 		var v Val
 		func() {
 			defer func() { recover() }()
-			x.inContract++
+			x.c.inContract++
 			v = x.eval(e, st.clone(), env)
-			x.inContract--
+			x.c.inContract--
 		}()
 		if v.T == "" {
 			return
@@ -865,9 +868,9 @@ func (x *Exec) checkInvariants(kind string, ord int, spec *LoopSpec, st *State, 
 		cenv = cenv.with(k, v)
 	}
 	for i, inv := range spec.Invariants {
-		x.inContract++
+		x.c.inContract++
 		t := x.defaultType(x.eval(inv.Expr, st, cenv)).T
-		x.inContract--
+		x.c.inContract--
 		label := inv.Label
 		if label == "" {
 			label = fmt.Sprintf("inv%d", i+1)
@@ -882,9 +885,9 @@ func (x *Exec) assumeInvariants(spec *LoopSpec, st *State, pos token.Pos, extraN
 		cenv = cenv.with(k, v)
 	}
 	for _, inv := range spec.Invariants {
-		x.inContract++
+		x.c.inContract++
 		t := x.defaultType(x.eval(inv.Expr, st, cenv)).T
-		x.inContract--
+		x.c.inContract--
 		x.c.assume(st.pc, t)
 	}
 }
@@ -899,6 +902,20 @@ func (x *Exec) execFor(n *ast.ForStmt, st *State, env *Env) Flow {
 	h, lc := x.havocLoop(n, nil, st, env, spec)
 	x.assumeInvariants(spec, h, pos, nil)
 	x.loopStack = append(x.loopStack, lc)
+	// automatic invariant of counting loops `for i := e; …; i++` whose body never assigns i: i >= e
+	if as, ok := n.Init.(*ast.AssignStmt); ok && as.Tok == token.DEFINE && len(as.Lhs) == 1 {
+		if inc, ok := n.Post.(*ast.IncDecStmt); ok && inc.Tok == token.INC {
+			if id, ok := as.Lhs[0].(*ast.Ident); ok {
+				if pid, ok := inc.X.(*ast.Ident); ok && pid.Name == id.Name {
+					obj := env.info.Defs[id]
+					bodyVars, _, _, _ := x.assignedIn(n.Body, env.info)
+					if obj != nil && !bodyVars[obj] && isInt(obj.Type()) {
+						x.c.assume("true", app(">=", h.vars[obj].T, st.vars[obj].T))
+					}
+				}
+			}
+		}
+	}
 	defer func() { x.loopStack = x.loopStack[:len(x.loopStack)-1] }()
 	exit := h.clone()
 	body := h
@@ -913,10 +930,13 @@ func (x *Exec) execFor(n *ast.ForStmt, st *State, env *Env) Flow {
 	}
 	var variant0 string
 	if spec.Decreases != nil {
-		x.inContract++
+		x.c.inContract++
 		variant0 = x.defaultType(x.eval(spec.Decreases.Expr, body, x.contractEnv(pos))).T
-		x.inContract--
+		x.c.inContract--
 		variant0 = x.c.define("variant", "Int", variant0)
+	}
+	if len(spec.Invariants) > 0 {
+		x.smoke(fmt.Sprintf("loop%d.body", ord), body, pos)
 	}
 	x.execGhost(spec.DoStart, body, x.contractEnv(pos))
 	f := x.execBlock(n.Body.List, body, env)
@@ -929,9 +949,9 @@ func (x *Exec) execFor(n *ast.ForStmt, st *State, env *Env) Flow {
 		x.checkInvariants("preserve", ord, spec, end, pos, nil)
 		x.checkAutoFrame(lc, end, ord, pos)
 		if spec.Decreases != nil {
-			x.inContract++
+			x.c.inContract++
 			v1 := x.defaultType(x.eval(spec.Decreases.Expr, end, x.contractEnv(pos))).T
-			x.inContract--
+			x.c.inContract--
 			x.oblige(fmt.Sprintf("loop%d.decreases", ord), 0, pos, end, and(app(">=", variant0, "0"), app("<", v1, variant0)), "variant "+spec.Decreases.Text+" is bounded below and decreases")
 		}
 	}
@@ -1035,6 +1055,9 @@ func (x *Exec) execRange(n *ast.RangeStmt, st *State, env *Env) Flow {
 	_ = variant0
 	oldBase := x.baseNames
 	x.baseNames = mergeNames(x.baseNames, namesI)
+	if len(spec.Invariants) > 0 {
+		x.smoke(fmt.Sprintf("loop%d.body", ord), body, pos)
+	}
 	x.execGhost(spec.DoStart, body, x.contractEnv(pos))
 	f := x.execBlock(n.Body.List, body, env)
 	end := x.merge(f.normal, f.cont)
@@ -1063,4 +1086,71 @@ func mergeNames(a, b map[string]Val) map[string]Val {
 		n[k] = v
 	}
 	return n
+}
+
+
+var pureLib = map[string]bool{
+	"errors.New": true, "fmt.Errorf": true, "strconv.Itoa": true, "strconv.FormatFloat": true, "strconv.Atoi": true,
+	"strings.Join": true, "strings.ToUpper": true, "(*os.File).WriteString": true, "fmt.Fprintf": true, "fmt.Fprintln": true,
+	"fmt.Fprint": true, "unicode/utf8.DecodeRune": true, "unicode.IsLetter": true, "math.Log": true,
+}
+
+// callEffects: what a call inside a loop body may change (used to decide what the loop havocs)
+func (x *Exec) callEffects(n *ast.CallExpr, info *types.Info) (allocs, ghosts bool, heapSorts []string) {
+	fn := calleeOf(n, info)
+	if fn == nil {
+		return true, true, []string{"*"}
+	}
+	full := fn.FullName()
+	if pureLib[full] {
+		return false, false, nil
+	}
+	if full == "(io.Writer).Write" {
+		return false, true, nil
+	}
+	if full == "sort.Slice" || full == "sort.SliceStable" {
+		if t := info.TypeOf(n.Args[0]); t != nil {
+			if sl, ok := t.Underlying().(*types.Slice); ok {
+				return false, false, []string{x.c.sortOf(sl.Elem())}
+			}
+		}
+		return true, true, []string{"*"}
+	}
+	if fi := x.g.funcByObj[fn.Origin()]; fi != nil {
+		if con := x.g.cs.Funcs[fi.Key]; con != nil {
+			if con.Inline {
+				return false, false, nil
+			}
+			for i := 0; i < fi.Sig.Results().Len(); i++ {
+				if containsSlice(fi.Sig.Results().At(i).Type(), 0) {
+					allocs = true
+					heapSorts = append(heapSorts, "*")
+				}
+			}
+			for _, m := range con.Modifies {
+				id, ok := m.Expr.(*ast.Ident)
+				handled := false
+				if ok {
+					for i := 0; i < fi.Sig.Params().Len(); i++ {
+						p := fi.Sig.Params().At(i)
+						if p.Name() == id.Name {
+							switch u := p.Type().Underlying().(type) {
+							case *types.Chan, *types.Interface:
+								ghosts = true
+								handled = true
+							case *types.Slice:
+								heapSorts = append(heapSorts, x.c.sortOf(u.Elem()))
+								handled = true
+							}
+						}
+					}
+				}
+				if !handled {
+					heapSorts = append(heapSorts, "*")
+				}
+			}
+			return
+		}
+	}
+	return true, true, []string{"*"}
 }
